@@ -323,7 +323,7 @@ func c18Check(c c18Case, e *vsched.Exec, obs *c18Obs) (string, string) {
 	if c.Second > 0 {
 		defer os.RemoveAll(obs.dir2)
 		if obs.connErr2 != io.EOF {
-			return "C18:connection-end", fmt.Sprintf("second connection: handleConn returned %v", obs.connErr2)
+			return "C18:connection-end:second-connection", fmt.Sprintf("second connection: handleConn returned %v", obs.connErr2)
 		}
 		files2, _ := filepath.Glob(filepath.Join(obs.dir2, "*.cptr"))
 		sort.Strings(files2)
@@ -331,16 +331,16 @@ func c18Check(c c18Case, e *vsched.Exec, obs *c18Obs) (string, string) {
 		for _, f := range files2 {
 			fr, err := parseCPTR(f)
 			if err != nil {
-				return "C18:malformed-file", fmt.Sprintf("second connection (frame size %d after a connection with frame size %d): %s: %v", c.Second, c.size(), filepath.Base(f), err)
+				return "C18:malformed-file:second-connection", fmt.Sprintf("second connection (frame size %d after a connection with frame size %d): %s: %v", c.Second, c.size(), filepath.Base(f), err)
 			}
 			all2 = append(all2, fr...)
 		}
 		if len(all2) != c.Frames {
-			return "C18:frame-count", fmt.Sprintf("second connection: %d frames stored, %d received", len(all2), c.Frames)
+			return "C18:frame-count:second-connection", fmt.Sprintf("second connection: %d frames stored, %d received", len(all2), c.Frames)
 		}
 		for i, fr := range all2 {
 			if !bytes.Equal(fr, c18FrameN(101+i, c.Second)) {
-				return "C18:frame-content-or-order", fmt.Sprintf("second connection: stored frame %d is % x, received % x", i+1, fr, c18FrameN(101+i, c.Second))
+				return "C18:frame-content-or-order:second-connection", fmt.Sprintf("second connection: stored frame %d is % x, received % x", i+1, fr, c18FrameN(101+i, c.Second))
 			}
 		}
 	}
@@ -384,13 +384,9 @@ func TestVerifC18(t *testing.T) {
 		os.Exit(code)
 	}
 	r := ev.NewRun("C18", "overlay cmd/thermal-writer TestVerifC18")
-	r.Rerun = func(cj []byte) []ev.Violation {
-		vs := c18Replay(cj)
-		for i := range vs {
-			vs[i].Msg = strings.SplitN(vs[i].Msg, "\nschedule:", 2)[0]
-		}
-		return vs
-	}
+	// re-runs happen in a fresh process: a change under test may keep state in a package-level variable
+	// (a buffer pool kept across connections, say), which outlives one execution inside this process
+	r.Rerun = ev.FreshProcessRerun("C18", "overlay cmd/thermal-writer TestVerifC18", "TestVerifC18")
 	shard, nshards, child := ev.ShardInfo()
 	if !child && r.Thorough() {
 		exit, evs := ev.RunShards(14, "TestVerifC18")
@@ -451,6 +447,8 @@ func TestVerifC18(t *testing.T) {
 	r.SetDeadline(map[bool]time.Duration{false: 150 * time.Second, true: 35 * time.Minute}[r.Thorough()])
 	per := map[string]interface{}{}
 	completed := 0
+	firstScenario := true
+	var nondeterministic []string
 	for pi, passBound := range bounds {
 		allComplete := true
 		for _, sc := range scens {
@@ -474,9 +472,25 @@ func TestVerifC18(t *testing.T) {
 			os.RemoveAll(obs.dir)
 			os.RemoveAll(obs.dir2)
 			if fmt.Sprint(e1.Choices()) != fmt.Sprint(e2.Choices()) {
-				fmt.Fprintf(os.Stderr, "HARNESS-ERROR: schedule replay is not deterministic for %+v\n", c)
-				os.Exit(2)
+				// The same schedule gave two different executions: something outlives an execution. If the code
+				// under test is the cause (state in a package-level variable), the first execution of this
+				// process - which did start from a fresh daemon - shows what that state does; it is judged
+				// alone (and re-run in fresh processes). Otherwise this is a harness error.
+				obs1 := &c18Obs{}
+				cc := c
+				cc.Choices = e1.Choices()
+				if firstScenario {
+					ex := vsched.Run(cc.Choices, vsched.Options{Horizon: 200000, EnvBudget: c.Timers}, c18Body(c, obs1))
+					if sig, msg := c18Check(c, ex, obs1); sig != "" {
+						w.Evaluations++
+						w.Nontrivial++
+						w.Violate(sig, msg+" (and the same schedule does not repeat inside one process: state is kept between connections)", cc, len(cc.Choices))
+					}
+				}
+				nondeterministic = append(nondeterministic, fmt.Sprintf("%+v", c))
+				continue
 			}
+			firstScenario = false
 			x := &vsched.Explorer{Bound: bound, Opt: vsched.Options{Horizon: 200000, EnvBudget: c.Timers}, Stop: r.Expired, Shard: shard, NShards: nshards}
 			x.Body = func() { c18Body(c, obs)() }
 			x.OnDiscard = func(e *vsched.Exec) { os.RemoveAll(obs.dir); os.RemoveAll(obs.dir2) }
@@ -508,16 +522,28 @@ func TestVerifC18(t *testing.T) {
 			r.MarkCapped()
 		}
 	}
+	if len(nondeterministic) > 0 {
+		// no verdict is possible for these scenarios; without a reproducible violation the run is a harness error
+		fmt.Fprintf(os.Stderr, "HARNESS-ERROR: schedule replay is not deterministic for %v\n", nondeterministic)
+		r.Extra["scenarios_without_deterministic_replay"] = nondeterministic
+		r.MarkCapped()
+		hadNondeterminism = true
+	}
 	r.Extra["completed_deviation_bound"] = completed
 	r.Extra["shard"] = fmt.Sprintf("%d/%d", shard, nshards)
 	r.Extra["scenarios"] = per
 	c18Describe(r, bounds[0], bounds[len(bounds)-1])
 	code := r.Finish()
 	c18Cleanup()
+	if code == 0 && hadNondeterminism {
+		code = 2
+	}
 	if code != 0 {
 		os.Exit(code)
 	}
 }
+
+var hadNondeterminism bool
 
 func c18Describe(r *ev.Run, completeBound, maxBound int) {
 	r.Bounds["deviation_bound_complete"] = completeBound
